@@ -1,5 +1,6 @@
 """C18 — an alias is indistinguishable from the variable it names (fsic.extensions.common.AliasMixin)."""
 import copy
+import json
 import signal
 
 import lib
@@ -16,7 +17,8 @@ K_NAME = ('K_alias (Alias.alias_construct / alias_init_model / alias_step / alia
 RULE = ('alias maps of up to 6 entries over a model of 1-4 variables (one-to-one, many-to-one, chains of length 2-4, aliases of aliases, '
         'self-maps, 2- and 3-cycles, aliases of undeclared variables, aliases named like a variable / like status), PREFERRED_NAMES subsets '
         '(none, aliases, variables, ambiguous, duplicated), constructor keywords through aliases (incl. an alias and its target together), '
-        'then C09 operation sequences (<= 25 ops) made through randomly chosen aliases, reads by name / label / label slice / attribute, '
+        'then C09 operation sequences (<= 25 ops, incl. the read-only hooks _ipython_key_completions_ / dir() / in / nbytes) made through '
+        'randomly chosen aliases, reads by name / label / label slice / attribute, copy() and reindex() of the final object, '
         'a final solve() of a two-variable equation written through aliases; every run is compared with a canonical twin (no AliasMixin, '
         'operated through the ends of the declared chains). Non-trivial = constructed, and (an operation through an alias was accepted, '
         'or the export renamed a column). Distinct by hash of the case.')
@@ -68,7 +70,9 @@ def canon_op(aliases, op):
         # keywords in call order; two keywords may name ONE variable (an alias and its target), which a call on the twin cannot
         # spell: apply_twin() performs such a call as the item assignments it stands for
         return ['replace', [[chain_end(aliases, k), v] for k, v in op[1]]]
-    return op            # add_variable / add_attribute take the name literally
+    if t == 'query' and isinstance(op[1], list):
+        return ['query', [op[1][0], chain_end(aliases, op[1][1])]]
+    return op            # add_variable / add_attribute take the name literally; the other hooks take no name
 
 
 def apply_twin(obj, op):
@@ -173,6 +177,8 @@ def through_aliases(rng, aliases, op):
                 seen.add(k)
                 kvs.append([k, v])
         op[1] = kvs
+    elif t == 'query' and isinstance(op[1], list):
+        op[1][1] = rename(rng, aliases, op[1][1], p=0.8)
     return op
 
 
@@ -244,10 +250,13 @@ def fixed_cases():
         out.append(c)
     chain3 = [['A', 'B'], ['B', 'C'], ['C', 'X'], ['D', 'X'], ['y', 'Y']]
     ops = [['setitem', ['l', 'A', 11], S(['i', 9])], ['setattr', 'D', li(1, 1, 1)], ['setitem', ['sl', 'B', 10, 11, None], li(4, 5)],
-           ['replace', [['y', S(['i', 2])], ['C', S(['i', 3])]]], ['setitem', ['n', 'A'], li(7, 8, 9)], ['setattr', 'A', li(1, 2)]]
+           ['replace', [['y', S(['i', 2])], ['C', S(['i', 3])]]], ['setitem', ['n', 'A'], li(7, 8, 9)], ['setattr', 'A', li(1, 2)],
+           ['query', 'completions'], ['query', 'completions'], ['query', 'dir'], ['query', 'nbytes'], ['query', ['contains', 'X']],
+           ['query', ['contains', 'Q']], ['setattr', 'D', li(2, 2, 2)], ['query', 'completions']]
     mk(aliases=chain3, preferred=['A', 'y'], ops=ops, ivs=[['B', li(1, 2, 3)], ['Z', S(['i', 7])], ['X', li(4, 5, 6)]],
        reads=[['g', ['n', 'A']], ['g', ['l', 'B', 11]], ['g', ['sl', 'C', 10, 11, None]], ['a', 'D'], ['a', 'y']], solve=['A', 'y'])
     mk(aliases=chain3, preferred=[], ops=ops, reads=[['g', ['n', 'B']]])
+    mk(aliases=[['A', 'X']], ops=[['query', ['contains', 'A']]])                               # kept finding: `in` is not wrapped
     mk(aliases=[['B', 'C'], ['A', 'B'], ['C', 'D'], ['D', 'X']], preferred=['C'], ops=ops[:3], reads=[['g', ['l', 'A', 10]]])   # chain of 4, dict order scrambled
     mk(aliases=[['Y', 'Y'], ['A', 'X']], ops=ops[:2])                                          # self-map
     mk(aliases=[['A', 'A']], ops=[['setattr', 'A', S(['i', 1])]])
@@ -274,7 +283,7 @@ def fixed_cases():
 
 def gen(rng, tier):
     cases = fixed_cases()
-    n_rand = 6000 if tier == "quick" else 60000
+    n_rand = 4000 if tier == "quick" else 60000
     for i in range(n_rand):
         cases.append(rand_case(rng, 25 if i % 3 else 6))
     return cases
@@ -401,13 +410,16 @@ def impl(case):
         if op[0] == 'setattr':
             hint = cc.closest_hint(a_obj, a_obj.__dict__.get('aliases', {}).get(op[1], op[1]))
         o, info = cc.apply_op(a_obj, op)
-        o2, _ = apply_twin(t_obj, canon_op(al, op))
+        o2, info2 = apply_twin(t_obj, canon_op(al, op))
         if op[0] == 'addvar' and o == 'ok':
             declared.append(op[1])
         st = cc.observe(a_obj, declared)
         step = {'out': o, 'st': st, 'hint': hint, 'twin_out': o2, 'twin_diff': cc.diff_state(st, cc.observe(t_obj, declared))}
         if 'msg' in info:
             step['msg'] = info['msg']
+        if 'ret' in info:
+            step['ret'] = info['ret']
+            step['twin_ret'] = info2.get('ret')
         res['steps'].append(step)
     # storage: the aliased object holds exactly what the twin holds, plus the two bookkeeping entries
     ka, kt = set(a_obj.__dict__), set(t_obj.__dict__)
@@ -425,6 +437,29 @@ def impl(case):
     res['frame_noalias'] = _frame(a_obj)
     res['frame_twin'] = _frame(t_obj)
     res['final_names'] = list(a_obj.__dict__.get('names', []))
+    # copies: the same object again (aliases kept, no series under alias names), as the twin's copies
+    res['copies'] = {}
+    sp = list(case['span'])
+    top = max(sp + [0])
+    new_span = sp[1:] + [top + 1, top + 2]
+    for label, make in (('copy', lambda o: o.copy()), ('reindex', lambda o: o.reindex(list(new_span)))):
+        outs, objs = [], []
+        for o in (a_obj, t_obj):
+            try:
+                objs.append(make(o))
+                outs.append('ok')
+            except BaseException as e:             # noqa: BLE001
+                if isinstance(e, (KeyboardInterrupt, SystemExit, MemoryError)):
+                    raise
+                objs.append(None)
+                outs.append(type(e).__name__)
+        entry = {'outs': outs}
+        if objs[0] is not None and objs[1] is not None:
+            entry['diff'] = cc.diff_state(cc.observe(objs[0], declared), cc.observe(objs[1], declared))
+            entry['aliases_kept'] = dict(objs[0].__dict__.get('aliases') or {}) == dict(a_obj.__dict__.get('aliases') or {})
+            entry['extra_arrays'] = sorted(k for k in set(objs[0].__dict__) - set(objs[1].__dict__) if hasattr(objs[0].__dict__[k], 'nbytes'))
+            entry['same_class'] = type(objs[0]) is type(a_obj)
+        res['copies'][label] = entry
     # generated solution code sees the same data
     if case.get('solve'):
         outs = []
@@ -457,6 +492,8 @@ def _k_compare(case, m, o):
     for i, (ms, r) in enumerate(zip(m['steps'], o['steps'])):
         if ms['out'] != r['out']:
             return 'op %d outcome: model=%s impl=%s' % (i, ms['out'], r['out'])
+        if ('ret' in ms or 'ret' in r) and not cc.same_query_result(ms.get('ret'), r.get('ret')):
+            return 'op %d returned: model=%s impl=%s' % (i, json.dumps(ms.get('ret'))[:200], json.dumps(r.get('ret'))[:200])
         d = cc.diff_state(ms['st'], r['st'])
         if d:
             return 'after op %d: %s' % (i, d)
@@ -617,6 +654,21 @@ def _oracle(case, obs):
         if stp['twin_diff']:
             bad('%s|differs-from-twin' % op[0], 'op %d %s through %s: state differs from the twin: %s' % (i, op[0], c09._target_names(op), stp['twin_diff'][:200]))
             break
+        if op[0] == 'query':
+            # read-only hooks: the state was compared with the twin above (the twin's hook certainly changes nothing of ITS aliases);
+            # what they return: the twin's answer, plus the alias names where names are listed
+            a, t = stp.get('ret'), stp.get('twin_ret')
+            alias_names = [k for k, v in al if k != v]
+            if op[1] == 'completions' and not (isinstance(a, dict) and isinstance(t, dict) and a['names'] == t['names'] + alias_names):
+                bad('hook|completions', 'op %d: _ipython_key_completions_() gave %s; variables %s + aliases %s expected' % (i, a, t, alias_names))
+            elif op[1] == 'dir' and not (isinstance(a, dict) and isinstance(t, dict)
+                                         and a['names'] == sorted(t['names'] + [x for x in alias_names if x not in a.get('masked', [])])):
+                bad('hook|dir', 'op %d: dir(obj) gave %s; the twin lists %s, aliases %s' % (i, a, t, alias_names))
+            elif op[1] == 'nbytes' and a != t:
+                bad('hook|nbytes', 'op %d: nbytes gave %s, the twin %s' % (i, a, t))
+            elif isinstance(op[1], list) and a != t:
+                bad('contains|alias-not-member', 'op %d: %r in obj gave %s, but %r in obj gives %s and item access through both names is the same' % (
+                    i, op[1][1], a, chain_end(al, op[1][1]), t))
     # ---- no additional storage
     if obs.get('dict_extra_arrays') or obs.get('dict_missing') or len(obs.get('dict_extra', [])) > 4:
         # the mixin's own bookkeeping (the alias map, the preferred names) is no series; anything array-like is storage
@@ -632,6 +684,17 @@ def _oracle(case, obs):
         if a != t:
             bad('read|differs-from-twin', 'read %s gave %s, the twin %s' % (r, str(a)[:80], str(t)[:80]))
             break
+    # ---- copy() / reindex(): still an aliased object, equal to the twin's copy, nothing stored under alias names
+    for label, c in sorted((obs.get('copies') or {}).items()):
+        if c['outs'][0] != c['outs'][1]:
+            bad('%s|differs-from-twin' % label, '%s() gave %s, on the twin %s' % (label, c['outs'][0], c['outs'][1]))
+        elif c['outs'][0] == 'ok':
+            if c.get('diff'):
+                bad('%s|differs-from-twin' % label, '%s(): %s' % (label, c['diff'][:200]))
+            if not c.get('aliases_kept') or not c.get('same_class'):
+                bad('%s|aliases-lost' % label, '%s() does not return an object of the same class with the same aliases' % label)
+            if c.get('extra_arrays'):
+                bad('%s|storage-under-alias-names' % label, '%s() holds arrays %s that the twin does not' % (label, c['extra_arrays']))
     # ---- generated solution code
     sv = obs.get('solve')
     if sv and (sv['outs'][0] != sv['outs'][1] or sv['diff']):
